@@ -262,6 +262,9 @@ class DispatchingShell(cmd.Cmd):
             # the query parser.
             if line.startswith('.'):
                 return self.error(f'unknown command "{line[1:].strip()}"')
+            # A line holding only comments is an empty line.
+            if not re.sub(r'/\*.*?\*/|;[^\n]*$', '', line, flags=re.DOTALL | re.MULTILINE).strip():
+                return
             return self.execute(line)
         if not line.startswith('.'):
             cmd = cmd.lower()
